@@ -739,11 +739,13 @@ class Mesh:
             raise TypeError("Can only join meshes with same type.")
         p = np.hstack((self.p, other.p))
         t = np.hstack((self.t, other.t + self.p.shape[1]))
-        # vertices agreeing to 8 digits of the extent of the joined meshes are
+        # vertices closer than 1e-4 of the shortest edge of the cells are
         # merged; the joined mesh keeps the coordinates as they are
         origin = p.min(axis=1, keepdims=True)
-        scale = (p - origin).max() or 1.
-        key = ((p - origin) / scale).round(decimals=8)
+        pt = p[:, t]
+        scale = min(np.linalg.norm(pt[:, i] - pt[:, j], axis=0).min()
+                    for i in range(t.shape[0]) for j in range(i)) or 1.
+        key = ((p - origin) / scale).round(decimals=4)
         return cls(*self._remove_duplicate_nodes(p, t, key=key))
 
     def __repr__(self):
